@@ -90,7 +90,7 @@ def do_table(a):
             if s.count(m["old"]) != 1:
                 return {**_brief(m), "error": f"pattern occurs {s.count(m['old'])} times"}
             open(p, "w").write(s.replace(m["old"], m["new"]))
-            res = run_check(m["pid"], wt, a.tier, a.runs, workers=a.workers)
+            res = run_check(m["pid"], wt, a.tier, a.runs, workers=a.workers, seed=a.seed)
             out = {**_brief(m), **res, "detected": res["exit"] == 1 and bool(res["violations"])}
             if a.suite:
                 ok, broken = suite_survives(wt)
@@ -125,7 +125,7 @@ def do_seeded(a):
                 return {"id": d, "pid": meta["property"], "error": "patch does not apply: " + r.stderr[:300]}
             out = {"id": d, "pid": meta["property"]}
             for pid in [meta["property"]] + (meta.get("also_check", []) if a.also else []):
-                res = run_check(pid, wt, a.tier, a.runs, workers=a.workers)
+                res = run_check(pid, wt, a.tier, a.runs, workers=a.workers, seed=a.seed)
                 out[pid] = res
             out["detected"] = out[meta["property"]]["exit"] == 1
             return out
@@ -155,7 +155,7 @@ def do_benign(a):
                 return {"id": d, "pid": "-", "error": "patch does not apply: " + r.stderr[:300]}
             out = {"id": d, "pid": "all", "checks": {}}
             for pid in ALL_PIDS:
-                out["checks"][pid] = run_check(pid, wt, a.tier, a.runs, workers=a.workers)
+                out["checks"][pid] = run_check(pid, wt, a.tier, a.runs, workers=a.workers, seed=a.seed)
             out["silent"] = all(c["exit"] == 0 for c in out["checks"].values())
             return out
         finally:
@@ -164,7 +164,7 @@ def do_benign(a):
     with ThreadPoolExecutor(a.jobs) as ex:
         results = list(ex.map(one, dirs))
     os.makedirs(os.path.join(VERIF, "mutants"), exist_ok=True)
-    path = os.path.join(VERIF, "mutants", "results-benign.json")
+    path = os.path.join(VERIF, "mutants", "results-benign.json" if not a.seed else f"results-benign-seed{a.seed}.json")
     merged = {}
     if a.only and os.path.exists(path):
         merged = {r["id"]: r for r in json.load(open(path))["results"]}
@@ -181,7 +181,7 @@ def do_benign(a):
 
 def _report(kind, results, a):
     os.makedirs(os.path.join(VERIF, "mutants"), exist_ok=True)
-    path = os.path.join(VERIF, "mutants", f"results-{kind}.json")
+    path = os.path.join(VERIF, "mutants", f"results-{kind}.json" if not a.seed else f"results-{kind}-seed{a.seed}.json")
     old = {}
     if os.path.exists(path) and a.only:
         old = {r["id"]: r for r in json.load(open(path))["results"]}
@@ -226,6 +226,7 @@ def main():
         p.add_argument("--workers", type=int, default=4)
         p.add_argument("--suite", action="store_true", help="also run the pinned test suite against each mutant")
         p.add_argument("--also", action="store_true")
+        p.add_argument("--seed", type=int, default=0, help="VERIF_SEED block for the checks (results for seed != 0 go to results-<kind>-seed<N>.json)")
     p = sub.add_parser("suite")
     p.add_argument("patch")
     a = ap.parse_args()
